@@ -60,6 +60,7 @@ type vhRelState struct {
 	Members   []string // proposer followed by voters
 	OffQueued []bool   // member i is queued for removal
 	OnQueue   []string
+	OffExtra  []string // queued for removal without ever having been a member (see vhBuildRel)
 	Rel       types.Relayer
 }
 
@@ -87,6 +88,18 @@ func vhBuildRel(h *vrt.H, k Keeper, ctx sdk.Context, maxVoters, maxOn int) *vhRe
 		}
 	}
 	h.Assume(st.N+1-nOff >= 1) // Inv_R: removals never empty the group
+	// NewVoter queues a confirmed pending voter whose address already had an account for removal
+	// although it never was a member: such an entry is part of every reachable state description
+	if h.Choose("conflictingAccountQueuedForRemoval", 0, 1) == 1 {
+		name := vhRStr(k, 40)
+		st.OffExtra = append(st.OffExtra, name)
+		if h.Choose("conflictingEntryFirst", 0, 1) == 1 {
+			queue.OffBoarding = append([]string{name}, queue.OffBoarding...)
+		} else {
+			queue.OffBoarding = append(queue.OffBoarding, name)
+		}
+		vhMust(k.Voters.Set(ctx, name, types.Voter{Address: vhRBytes(40), VoteKey: h.BLSKey(40), Status: types.VOTER_STATUS_OFF_BOARDING}))
+	}
 	nOn := h.Choose("nOnBoarding", 0, maxOn)
 	for j := 0; j < nOn; j++ {
 		name := vhRStr(k, 10+j)
@@ -186,6 +199,10 @@ func VH_C16_endblock(h *vrt.H) {
 				_, verr := k.Voters.Get(ctx, m)
 				h.Assert(verr != nil, "removed-member-record-deleted")
 			}
+		}
+		for _, o := range st.OffExtra {
+			_, verr := k.Voters.Get(ctx, o)
+			h.Assert(verr != nil, "removed-non-member-record-deleted")
 		}
 		for _, o := range st.OnQueue {
 			want++
